@@ -18,7 +18,7 @@ RULE = ('cases: sampler configurations: 1-4 fragments (coarse node chains; 30 % 
         'A sampler exception is accepted only when a dead end (no open descriptor, all selectable weights zero, '
         'no complementary descriptor) was reachable in the state of the failing growth step. non-trivial = >=3 '
         'growth steps; distinct = configuration')
-ASSUMPTIONS = ['labels do not end in a digit (the API reads a trailing digit as the order suffix)',
+ASSUMPTIONS = ['table keys for labels that end in a digit are always written with the explicit order suffix (the API reads a trailing digit of a key as the order)',
                'masses are positive', 'templates are read through cgsmiles\' own fragment reader']
 
 
